@@ -13,6 +13,7 @@ import (
 	"sync/atomic"
 	"time"
 
+	dtlsServer "github.com/plgd-dev/go-coap/v3/dtls/server"
 	"github.com/plgd-dev/go-coap/v3/message"
 	"github.com/plgd-dev/go-coap/v3/message/codes"
 	"github.com/plgd-dev/go-coap/v3/message/pool"
@@ -205,6 +206,12 @@ type memConn struct {
 	barSeq   int
 	avoidMID map[int]bool
 	errs     []string
+	// second session type (memConnOpts.dtls): a real dtls/server.Session over a scripted datagram net.Conn;
+	// datagrams are fed to the script (the session's Run loop hands them to Conn.Process), the output is
+	// what the session wrote to the script
+	script      *c09Script
+	scriptTaken int
+	runDone     chan struct{}
 }
 
 var barrierToken = []byte{0xBA, 0x77, 0x1E, 0x77, 0xBA, 0x77, 0x1E, 0x77}
@@ -228,6 +235,9 @@ type memConnOpts struct {
 	afterHandler func(r *pool.Message)
 	// optional: Config.ProcessReceivedMessage (nil = the connection's default)
 	processReceived config.ProcessReceivedMessageFunc[*client.Conn]
+	// dtls: run the connection over a real dtls/server.Session wrapped around a scripted net.Conn
+	// instead of the in-memory session
+	dtls bool
 }
 
 func newMemConn(o memConnOpts) *memConn {
@@ -295,13 +305,47 @@ func newMemConn(o memConnOpts) *memConn {
 			})
 		}
 	}
+	if o.dtls {
+		mc.script = newC09Script(true)
+		session := dtlsServer.NewSession(context.Background(), coapNet.NewConn(mc.script), o.maxMsg, 1500, true)
+		mc.cc = client.NewConnWithOpts(session, &cfg, o.opts...)
+		mc.runDone = make(chan struct{})
+		go func() { _ = mc.cc.Run(); close(mc.runDone) }()
+		return mc
+	}
 	mc.cc = client.NewConnWithOpts(mc.s, &cfg, o.opts...)
 	return mc
 }
 
 func (m *memConn) close() {
+	if m.script != nil {
+		_ = m.cc.Close()
+		_ = m.script.Close()
+		select {
+		case <-m.runDone:
+		case <-time.After(10 * time.Second):
+		}
+		return
+	}
 	_ = m.cc.Close()
 	m.s.shutdown()
+}
+
+// waitOut waits until at least n datagrams not yet taken are in the output (or timeout).
+func (m *memConn) waitOut(n int, d time.Duration) bool {
+	if m.script == nil {
+		return m.s.waitOut(n, d)
+	}
+	deadline := time.Now().Add(d)
+	for {
+		if len(m.script.written())-m.scriptTaken >= n {
+			return true
+		}
+		if time.Now().After(deadline) {
+			return false
+		}
+		time.Sleep(200 * time.Microsecond)
+	}
 }
 
 // inject hands one datagram to the connection; result: 0 ok, 1 error returned, 2 panic.
@@ -311,6 +355,10 @@ func (m *memConn) inject(d []byte) (res int) {
 			res = 2
 		}
 	}()
+	if m.script != nil {
+		m.script.feed(d)
+		return 0
+	}
 	if err := m.cc.Process(nil, d); err != nil {
 		return 1
 	}
@@ -348,7 +396,14 @@ func (m *memConn) takeLog() []handlerCall {
 }
 
 func (m *memConn) takeOut() []wireMsg {
-	raw := m.s.take()
+	var raw [][]byte
+	if m.script != nil {
+		all := m.script.written()
+		raw = all[m.scriptTaken:]
+		m.scriptTaken = len(all)
+	} else {
+		raw = m.s.take()
+	}
 	r := make([]wireMsg, len(raw))
 	for i, b := range raw {
 		r[i] = decodeWire(b)
